@@ -318,19 +318,51 @@ impl Ctx {
         std::fs::create_dir_all(&work).unwrap();
         let docs = scn["docs"].as_array().unwrap();
         let texts: Vec<String> = docs.iter().map(|d| self.doc_text(d)).collect();
-        for dir in scn["dirs"].as_array().unwrap() {
-            let mut p = link_dir.clone();
-            for c in dir["path"].as_array().unwrap() {
-                let c = c.as_str().unwrap();
-                // "<step>.<key name>" -> "<step>.<8 hex of that key's id>"
-                let (step, key) = c.rsplit_once('.').unwrap();
-                p = p.join(format!("{}.{}", step, &self.km.idstr(key)[0..8]));
+        // C13 "history": the same paths first hold a DIFFERENT directory content of the same shape (digest
+        // symbols h1 / h2 swapped in every link), which is verified once; then the files are overwritten with
+        // the scenario's own content, modification times preserved.  The verdict must be that of the content.
+        let history = line["history"] == true;
+        let prior_texts: Vec<String> = if history {
+            docs.iter()
+                .map(|d| {
+                    if d["typ"] == "link" {
+                        let t = d.to_string().replace("\"h1\"", "\"hX\"").replace("\"h2\"", "\"h1\"").replace("\"hX\"", "\"h2\"");
+                        self.doc_text(&serde_json::from_str(&t).unwrap())
+                    } else {
+                        self.doc_text(d)
+                    }
+                })
+                .collect()
+        } else {
+            vec![]
+        };
+        let write_dirs = |which: &Vec<String>, keep_mtime: bool| {
+            for dir in scn["dirs"].as_array().unwrap() {
+                let mut p = link_dir.clone();
+                for c in dir["path"].as_array().unwrap() {
+                    let c = c.as_str().unwrap();
+                    // "<step>.<key name>" -> "<step>.<8 hex of that key's id>"
+                    let (step, key) = c.rsplit_once('.').unwrap();
+                    p = p.join(format!("{}.{}", step, &self.km.idstr(key)[0..8]));
+                }
+                std::fs::create_dir_all(&p).unwrap();
+                for f in dir["files"].as_array().unwrap() {
+                    let name = format!("{}.{}.link", f["step"].as_str().unwrap(), &self.km.idstr(f["fkey"].as_str().unwrap())[0..8]);
+                    let path = p.join(name);
+                    let old = if keep_mtime { std::fs::metadata(&path).ok().and_then(|m| m.modified().ok()) } else { None };
+                    std::fs::write(&path, &which[f["doc"].as_u64().unwrap() as usize - 1]).unwrap();
+                    if let Some(t) = old {
+                        if let Ok(fh) = std::fs::File::options().write(true).open(&path) {
+                            let _ = fh.set_modified(t);
+                        }
+                    }
+                }
             }
-            std::fs::create_dir_all(&p).unwrap();
-            for f in dir["files"].as_array().unwrap() {
-                let name = format!("{}.{}.link", f["step"].as_str().unwrap(), &self.km.idstr(f["fkey"].as_str().unwrap())[0..8]);
-                std::fs::write(p.join(name), &texts[f["doc"].as_u64().unwrap() as usize - 1]).unwrap();
-            }
+        };
+        if history {
+            write_dirs(&prior_texts, false);
+        } else {
+            write_dirs(&texts, false);
         }
         for a in scn["cwd"].as_array().map(|a| a.as_slice()).unwrap_or(&[]) {
             let p = work.join(a["p"].as_str().unwrap());
@@ -362,6 +394,12 @@ impl Ctx {
             in_toto::verif::start_recording();
         }
         let ld = link_dir.to_str().unwrap().to_string();
+        if history {
+            if let Ok(mb) = &top {
+                let _ = guarded(|| in_toto::verifylib::in_toto_verify(mb, keys.clone(), &ld, None));
+            }
+            write_dirs(&texts, true);
+        }
         // C13: repeat the identical verification and collect the distinct (verdict, summary) pairs
         let repeat = line["repeat"].as_u64().unwrap_or(0);
         let mut distinct: Vec<Value> = vec![];
